@@ -36,8 +36,14 @@ package proxy
 
 // ---- assumed contracts of net/http, context, gin ------------------------------
 
+//@ ghost hdrPikoAuth arr[string]
+//@ ghost hdrAuth arr[string]
+//@ ghost hdrTenant arr[string]
 //@ extern net/http.Header.Get
 //@   ensures[fwd] key == "x-piko-forward" ==> result == hdrFwd[h]
+//@   ensures[piko-auth] key == "x-piko-authorization" ==> result == hdrPikoAuth[h]
+//@   ensures[auth] key == "Authorization" ==> result == hdrAuth[h]
+//@   ensures[tenant] key == "x-piko-tenant-id" ==> result == hdrTenant[h]
 //@   ensures[upgrade] key == "upgrade" ==> result == hdrUpgrade[h]
 //@   ensures[endpoint] key == "x-piko-endpoint" ==> result == hdrEndpoint[h]
 //@ extern net/http.Header.Set
